@@ -69,6 +69,30 @@ def correspond(ctx):
             for v in views: v.release()
             B = A; B *= 2
             if B is not A or A[i] != 85.0: ctx.violation('c20:inplace-alias', 'in-place operator did not update the aliased matrix', case)
+        # in-place operators under a live view: the view keeps seeing the matrix (the buffer is never replaced while it is exported), for
+        # every operator and every operand type; an operator that would change the typecode must be refused
+        if m * k and tc != 'z':       # (memoryview cannot index the complex format)
+            C = matrix(A); before_tc = C.typecode
+            view = memoryview(C)
+            opname = rng.choice(['+=', '-=', '*=', '/=', '%='])
+            operand = rng.choice([2, 2.5, 0.5, 3, (1 + 1j)])
+            try:
+                if opname == '+=': C += operand
+                elif opname == '-=': C -= operand
+                elif opname == '*=': C *= operand
+                elif opname == '/=': C /= operand
+                else: C %= operand
+                res = 'ok'
+            except (TypeError, NotImplementedError, ArithmeticError, ValueError) as e: res = type(e).__name__
+            evals += 1
+            flat = [view[i % m, i // m] for i in range(m * k)]
+            if C.typecode != before_tc:
+                ctx.violation('c20:inplace-changes-typecode', 'in-place %s %r changed the typecode of a %s matrix to %s while a memoryview was exported' % (opname, operand, before_tc, C.typecode),
+                              dict(case, op=opname, operand=repr(operand)))
+            elif flat != list(C):
+                ctx.violation('c20:export-alias-inplace', 'after in-place %s %r (%s) an exported memoryview no longer shows the contents of the matrix' % (opname, operand, res),
+                              dict(case, op=opname, operand=repr(operand)))
+            view.release()
         distinct.add(('dense', tc, m, k))
         # buffer import: contiguous multi-dimensional casts and strided one-dimensional slices
         if rng.random() < 0.6:
